@@ -287,8 +287,10 @@ func (fakePlugin) GetInfo() *pluginregistry.ModelPluginInfo {
 	return &pluginregistry.ModelPluginInfo{Info: adminapi.ModelInfo{Name: "devicesim", Version: "1.0.0"},
 		ReadWritePaths: path.ReadWritePathMap{"/foo": adminapi.ReadWritePath{ValueType: configapi.ValueType_STRING}}}
 }
-func (fakePlugin) Capabilities(ctx context.Context) *gnmi.CapabilityResponse { return &gnmi.CapabilityResponse{} }
-func (fakePlugin) Validate(ctx context.Context, jsonData []byte) error        { return nil }
+func (fakePlugin) Capabilities(ctx context.Context) *gnmi.CapabilityResponse {
+	return &gnmi.CapabilityResponse{}
+}
+func (fakePlugin) Validate(ctx context.Context, jsonData []byte) error { return nil }
 func (fakePlugin) GetPathValues(ctx context.Context, pathPrefix string, jsonData []byte) ([]*configapi.PathValue, error) {
 	return nil, nil
 }
